@@ -112,6 +112,11 @@ def probe(mod, t, postponed, placement):
              "kwonly": "default=None, kw_only=True"}
     if placement == "alone":
         src = f"{head}@dataclass(frozen=True)\nclass {cname}(ASTNode):\n    f: {ann}\n"
+    elif placement == "shadow":
+        # the field is declared (as a string annotation) on a base class; the class under test is a subclass whose own NAME is a
+        # name the annotation uses for something else (the enum E): names in an annotation mean what they mean where it was written
+        src = (f"{head}@dataclass(frozen=True)\nclass {bname}(ASTNode):\n    f: {ann}\n\n"
+               f"{cname} = dataclass(frozen=True)(type('E', ({bname},), {{'__annotations__': {{'g': 'int'}}, 'g': 0, '__module__': __name__}}))\n")
     elif placement == "deferred":
         # another field of the class refers to a class defined later, so the definition-time check cannot run and the verdict
         # is reached at first use
@@ -125,7 +130,8 @@ def probe(mod, t, postponed, placement):
         other = "int = 0" if RT.classify(t) != "property" else "Optional[N1] = None"
         src = f"{head}@dataclass(frozen=True)\nclass {bname}(ASTNode):\n    f: {other}\n\n@dataclass(frozen=True)\nclass {cname}({bname}):\n    f: {ann}\n"
     src += f"\n@dataclass(frozen=True)\nclass {lname}(ASTNode):\n    w: int = 0\n"
-    names = [cname, bname, lname]
+    names = [cname, bname, lname] + (["E"] if placement == "shadow" else [])
+    saved_E = g.get("E")
     try:
         try:
             exec(compile(src, f"<c11:{cname}>", "exec", dont_inherit=True), g)
@@ -172,6 +178,10 @@ def probe(mod, t, postponed, placement):
         return verdict, ""
     finally:
         for nm in names:
+            if nm == "E":
+                _ser.TYPES.pop("E", None)
+                g["E"] = saved_E
+                continue
             cls = g.pop(nm, None)
             _ser.TYPES.pop(nm, None)
             if cls is not None:
@@ -210,6 +220,8 @@ def run_shard(cfg):
             placements = ["alone", "inherited", "override"] if (cfg["tier"] == "thorough" and d <= 2) or d <= 1 else ["alone"]
             if d <= 1:
                 placements += ["noinit-nocompare", "noinit", "nocompare", "kwonly", "deferred"]
+            if postponed and "Enum" in RT.atoms_of(t) and "FR" not in RT.atoms_of(t):
+                placements.append("shadow")
             for placement in placements:
                 mine = idx % cfg["of"] == cfg["k"]
                 idx += 1
